@@ -277,7 +277,7 @@ def run(rep, tier, seed):
     jobs = [sp[i::256] for i in range(256)]
     n = ns = 0
     fails = []
-    for k, s, fl in pmap(_work, jobs):
+    for k, s, fl in dyn.pmap_w('work', _work, jobs):
         n += k
         ns += s
         fails.extend(fl)
@@ -302,3 +302,6 @@ def run(rep, tier, seed):
         rule='case = one member converted, compared cell by cell with the per-object code table and bucketed for injectivity; '
         'distinct_nontrivial = distinct (space, representation) pairs',
     )
+
+
+WORKERS = {'work': _work}
